@@ -99,7 +99,13 @@ class BaseElementLocator
 
     void resize(std::size_t new_size, std::byte* memory_begin) noexcept
     {
-        if (new_size != element_addresses_.size())
+        if (new_size == 0)
+        {
+            // An empty vector ends where it begins. This also resets a moved-from locator, whose offset table is gone
+            // and whose end of data still points into the block it no longer owns.
+            last_element_ = memory_begin;
+        }
+        else if (new_size != element_addresses_.size())
         {
             last_element_ = element_address(new_size, memory_begin);
         }
